@@ -256,4 +256,300 @@ theorem zpadInt_ofNat (n w : Nat) : zpadInt (n : Int) w = zpad n w := by
   have : ¬ ((n : Int) < 0) := by omega
   simp [zpadInt, this]
 
+/-! ### suffix view of the index-based parser -/
+
+/-- the parser is at index `i` of `v` and the unread remainder is `s` -/
+def Sfx (v : Str) (i : Nat) (s : Str) : Prop := v.drop i = s ∧ i ≤ v.length
+
+theorem Sfx.start (v : Str) : Sfx v 0 v := ⟨rfl, Nat.zero_le _⟩
+
+theorem Sfx.adv {v : Str} {i : Nat} {t r : Str} (h : Sfx v i (t ++ r)) :
+    Sfx v (i + t.length) r := by
+  obtain ⟨h1, h2⟩ := h
+  have hl : (v.drop i).length = (t ++ r).length := by rw [h1]
+  simp at hl
+  refine ⟨?_, by omega⟩
+  rw [← List.drop_drop, h1]; simp
+
+theorem Sfx.adv1 {v : Str} {i : Nat} {c : Char} {r : Str} (h : Sfx v i (c :: r)) :
+    Sfx v (i + 1) r := Sfx.adv (t := [c]) h
+
+theorem Sfx.done {v : Str} {i : Nat} (h : Sfx v i []) : i = v.length := by
+  obtain ⟨h1, h2⟩ := h
+  have hl : (v.drop i).length = 0 := by rw [h1]; rfl
+  simp at hl; omega
+
+theorem Sfx.get {v : Str} {i : Nat} {c : Char} {r : Str} (h : Sfx v i (c :: r)) :
+    v[i]? = some c := by
+  have := List.getElem?_drop (xs := v) (i := i) (j := 0)
+  rw [h.1] at this; simpa using this.symm
+
+theorem Sfx.get_nil {v : Str} {i : Nat} (h : Sfx v i []) : v[i]? = none := by
+  rw [List.getElem?_eq_none]; exact Nat.le_of_eq h.done.symm
+
+theorem Sfx.lt {v : Str} {i : Nat} {c : Char} {r : Str} (h : Sfx v i (c :: r)) :
+    i < v.length := by
+  have := h.adv1.2; omega
+
+theorem Sfx.slice {v : Str} {i : Nat} {t r : Str} (h : Sfx v i (t ++ r)) :
+    slice v i (i + t.length) = t := by
+  unfold Py.slice
+  rw [h.1]; simp
+
+/-- `skip` -/
+theorem skip_ok {v : Str} {i : Nat} {c : Char} {r : Str} (h : Sfx v i (c :: r)) :
+    PS.skip ⟨v, i⟩ c = some ⟨v, i + 1⟩ := by
+  unfold PS.skip PS.hasMore PS.peek
+  simp only [h.get]
+  simp [h.lt]
+
+/-- `parse_digits(2)` on a two-digit zero-padded number -/
+theorem parseDigits_ok (e : Env) {v : Str} {i n : Nat} {r : Str} (hn : n < 100)
+    (h : Sfx v i (zpad n 2 ++ r)) :
+    parseDigits e ⟨v, i⟩ 2 = some ((n : Int), ⟨v, i + 2⟩) := by
+  have hl : (zpad n 2).length = 2 := zpad_length n 2 (by decide) (by simpa using hn)
+  have hs := h.slice
+  rw [hl] at hs
+  simp [parseDigits, hs, pyInt_zpad]
+
+theorem Sfx.adv_zpad2 {v : Str} {i n : Nat} {r : Str} (hn : n < 100)
+    (h : Sfx v i (zpad n 2 ++ r)) : Sfx v (i + 2) r := by
+  have hl : (zpad n 2).length = 2 := zpad_length n 2 (by decide) (by simpa using hn)
+  have := h.adv; rwa [hl] at this
+
+/-- the digit-scanning loop stops exactly after a run of ASCII digits that is
+followed by a non-digit (or the end), provided fuel and limit allow -/
+theorem scanDigits_ok (e : Env) (v : Str) (r : Str)
+    (hr : ∀ c, r.head? = some c → e.isDigit c = false) (ds : Str) :
+    AllD ds → ∀ (fuel i : Nat) (limit : Option Nat), ds.length ≤ fuel →
+      (∀ n, limit = some n → ds.length ≤ n) → Sfx v i (ds ++ r) →
+      scanDigits e v fuel i limit = i + ds.length := by
+  induction ds with
+  | nil =>
+    intro _ fuel i limit _ _ h
+    cases fuel with
+    | zero => rfl
+    | succ f =>
+      unfold scanDigits
+      split
+      · rfl
+      · cases r with
+        | nil => simp [h.get_nil]
+        | cons c r' =>
+          have hc := hr c rfl
+          simp at h
+          simp [h.get, hc]
+  | cons d ds ih =>
+    intro hd fuel i limit hf hl h
+    rw [AllD_cons] at hd
+    cases fuel with
+    | zero => simp at hf
+    | succ f =>
+      unfold scanDigits
+      have h0 : limit ≠ some 0 := by
+        intro h0; have := hl 0 h0; simp at this
+      have hg : v[i]? = some d := Sfx.get (r := ds ++ r) h
+      simp only [h0, if_false, hg, isDigit_of_digit e hd.1, if_true]
+      rw [ih hd.2 f (i + 1) (limit.map (· - 1)) (by simpa using hf) ?_ (Sfx.adv1 (c := d) h)]
+      · simp; omega
+      · intro n hn
+        cases limit with
+        | none => simp at hn
+        | some m =>
+          simp at hn
+          have := hl m rfl
+          simp at this; omega
+
+/-- a remainder that does not start with a digit -/
+def NoDigitHead (e : Env) (r : Str) : Prop := ∀ c, r.head? = some c → e.isDigit c = false
+
+/-- `parse_minimum_digits(4)` on a year printed with `:04d` -/
+theorem parseMinimumDigits_ok (e : Env) {v : Str} {i y : Nat} {r : Str} (hr : NoDigitHead e r)
+    (h : Sfx v i (zpad y 4 ++ r)) :
+    parseMinimumDigits e ⟨v, i⟩ 4 = some ((y : Int), ⟨v, i + (zpad y 4).length⟩) := by
+  have hge := zpad_length_ge y 4
+  have hsplit : zpad y 4 = (zpad y 4).take 4 ++ (zpad y 4).drop 4 :=
+    (List.take_append_drop 4 _).symm
+  have h' : Sfx v i ((zpad y 4).take 4 ++ ((zpad y 4).drop 4 ++ r)) := by
+    rw [← List.append_assoc, ← hsplit]; exact h
+  have h4 := h'.adv
+  have ht : ((zpad y 4).take 4).length = 4 := by simp; omega
+  rw [ht] at h4
+  have hall : AllD ((zpad y 4).drop 4) := fun c hc => zpad_AllD y 4 c (List.mem_of_mem_drop hc)
+  have hlen : ((zpad y 4).drop 4).length ≤ v.length + 1 := by
+    have := h.adv.2; simp; omega
+  have hscan := scanDigits_ok e v r hr _ hall (v.length + 1) (i + 4) none hlen (by simp) h4
+  have hidx : i + 4 + ((zpad y 4).drop 4).length = i + (zpad y 4).length := by simp; omega
+  unfold parseMinimumDigits
+  simp only []
+  rw [hscan, hidx, h.slice, pyInt_zpad]; rfl
+
+theorem dropWhile_replicate0 (k : Nat) (c : Char) (t : Str) (hc : c ≠ '0') :
+    (List.replicate k '0' ++ c :: t).dropWhile (· = '0') = c :: t := by
+  induction k with
+  | zero => simp [hc]
+  | succ k ih => rw [List.replicate_succ, List.cons_append, List.dropWhile_cons]; simpa using ih
+
+theorem zpad_zero_4 : zpad 0 4 = ['0', '0', '0', '0'] := by decide
+
+/-- the leading-zero count of a `:04d` year never triggers the parser's rejection -/
+theorem lz_zpad (y : Nat) :
+    (leadingZeros (zpad y 4) = 1 → y ≤ 999) ∧ (leadingZeros (zpad y 4) = 2 → y ≤ 99) ∧
+    (leadingZeros (zpad y 4) = 3 → y ≤ 9) ∧ (leadingZeros (zpad y 4) = 4 → y = 0) ∧
+    leadingZeros (zpad y 4) ≤ 4 := by
+  by_cases hy : y = 0
+  · subst hy; rw [zpad_zero_4]; decide
+  · obtain ⟨c, t, hct, hc⟩ := nstr_head y hy
+    have hlz : leadingZeros (zpad y 4) = 4 - (nstr y).length := by
+      unfold leadingZeros
+      rw [zpad_eq, hct, dropWhile_replicate0 _ _ _ hc]
+      simp
+    have h1 := nstr_length_le y 1 (by decide)
+    have h2 := nstr_length_le y 2 (by decide)
+    have h3 := nstr_length_le y 3 (by decide)
+    have hpos : 1 ≤ (nstr y).length := by rw [hct]; simp
+    rw [hlz]
+    have e1 : (10:Nat) ^ 1 = 10 := by decide
+    have e2 : (10:Nat) ^ 2 = 100 := by decide
+    have e3 : (10:Nat) ^ 3 = 1000 := by decide
+    rw [e1] at h1; rw [e2] at h2; rw [e3] at h3
+    omega
+
+theorem yearCheck_ok (y : Nat) :
+    ((leadingZeros (zpad y 4) = 1 && ((y : Int) > 999)) || (leadingZeros (zpad y 4) = 2 && ((y : Int) > 99))
+      || (leadingZeros (zpad y 4) = 3 && ((y : Int) > 9)) || (leadingZeros (zpad y 4) = 4 && ((y : Int) > 0))
+      || decide (leadingZeros (zpad y 4) > 4)) = false := by
+  obtain ⟨h1, h2, h3, h4, h5⟩ := lz_zpad y
+  simp only [Bool.or_eq_false_iff, Bool.and_eq_false_iff, decide_eq_false_iff_not]
+  omega
+
+/-- `parse_year` on a non-negative year printed with `:04d` -/
+theorem parseYear_nonneg (e : Env) {v : Str} {i y : Nat} {r : Str} (hr : NoDigitHead e r)
+    (h : Sfx v i (zpad y 4 ++ r)) :
+    parseYear e ⟨v, i⟩ = some ((y : Int), ⟨v, i + (zpad y 4).length⟩) := by
+  cases hz : zpad y 4 with
+  | nil => exact absurd hz (zpad_ne_nil y 4)
+  | cons c t =>
+    have hc : isAsciiDigit c = true := zpad_AllD y 4 c (by rw [hz]; simp)
+    have hne : c ≠ '-' := digit_ne hc (by decide)
+    have hg : v[i]? = some c := by
+      have h' := h; rw [hz] at h'; exact Sfx.get (r := t ++ r) h'
+    have hm := parseMinimumDigits_ok e hr h
+    have hs := h.slice
+    unfold parseYear
+    simp only [PS.peek, hg, hne, if_false, hm, hs, yearCheck_ok y]
+    rw [hz]; simp
+
+/-- `parse_year` on a negative year: `'-'` followed by `:04d` of the absolute value -/
+theorem parseYear_neg (e : Env) {v : Str} {i y : Nat} {r : Str} (hr : NoDigitHead e r)
+    (h : Sfx v i ('-' :: (zpad y 4 ++ r))) :
+    parseYear e ⟨v, i⟩ = some (-(y : Int), ⟨v, i + 1 + (zpad y 4).length⟩) := by
+  have hg : v[i]? = some '-' := h.get
+  have h1 := h.adv1
+  have hm := parseMinimumDigits_ok e hr h1
+  have hs := h1.slice
+  unfold parseYear
+  simp only [PS.peek, hg, if_true, hm, hs, yearCheck_ok y]
+  simp
+
+/-! ### fractional seconds -/
+
+/-- a remainder that is empty or starts like a printed offset -/
+def OffHead (r : Str) : Prop := ∀ c, r.head? = some c → c = 'Z' ∨ c = '-' ∨ c = '+'
+
+theorem OffHead.noDigit (e : Env) {r : Str} (h : OffHead r) : NoDigitHead e r := by
+  intro c hc
+  rcases h c hc with rfl | rfl | rfl <;> rfl
+
+theorem OffHead.noDot {r : Str} (h : OffHead r) : ∀ c, r.head? = some c → c ≠ '.' := by
+  intro c hc
+  rcases h c hc with rfl | rfl | rfl <;> decide
+
+theorem noDigitHead_dash (e : Env) (r : Str) : NoDigitHead e ('-' :: r) := by
+  intro c hc; simp at hc; subst hc; rfl
+
+theorem noDigitHead_T (e : Env) (r : Str) : NoDigitHead e ('T' :: r) := by
+  intro c hc; simp at hc; subst hc; rfl
+
+theorem parseFrac_none (e : Env) {v : Str} {i : Nat} {r : Str} (hr : OffHead r) (h : Sfx v i r) :
+    parseFractionalSecond e ⟨v, i⟩ = some (0, ⟨v, i⟩) := by
+  unfold parseFractionalSecond PS.hasMore PS.peek
+  cases r with
+  | nil => simp [h.done]
+  | cons c r' =>
+    have hc : c ≠ '.' := hr.noDot c rfl
+    simp only [h.get]
+    simp [hc]
+
+theorem dval_append_replicate0 (s : Str) (k : Nat) :
+    dval (s ++ List.replicate k '0') = dval s * 10 ^ k := by
+  induction k with
+  | zero => simp
+  | succ k ih =>
+    rw [List.replicate_succ', ← List.append_assoc, dval_append_single, ih, Nat.pow_succ]
+    have : ('0' : Char).toNat - 48 = 0 := by decide
+    rw [this, Nat.mul_assoc]; rfl
+
+theorem parseFrac_some (e : Env) {v : Str} {i : Nat} {ds r : Str} (hd : AllD ds) (hne : ds ≠ [])
+    (hl : ds.length ≤ 9) (hr : OffHead r) (h : Sfx v i ('.' :: (ds ++ r))) :
+    parseFractionalSecond e ⟨v, i⟩ =
+      some (((dval ds * 10 ^ (9 - ds.length) : Nat) : Int), ⟨v, i + 1 + ds.length⟩) := by
+  have h1 := h.adv1
+  have hlen : ds.length ≤ v.length + 1 := by have := h1.adv.2; omega
+  have hscan := scanDigits_ok e v r (hr.noDigit e) ds hd (v.length + 1) (i + 1) (some 9) hlen
+    (by intro n hn; cases hn; exact hl) h1
+  have hall : AllD (ljust ds 9 '0') := by
+    unfold ljust; rw [AllD_append]; exact ⟨hd, AllD_replicate0 _⟩
+  have hne' : ljust ds 9 '0' ≠ [] := by
+    unfold ljust; simp [hne]
+  have hval : dval (ljust ds 9 '0') = dval ds * 10 ^ (9 - ds.length) := by
+    unfold ljust; exact dval_append_replicate0 _ _
+  unfold parseFractionalSecond PS.hasMore PS.peek
+  simp only [h.get]
+  simp only [h.lt, decide_true, Bool.true_and, beq_self_eq_true, if_true]
+  unfold parseFixedDigits
+  simp only []
+  rw [hscan, h1.slice, pyInt_digits e _ hall hne', hval]; rfl
+
+/-- the fractional part as printed by `format_time` -/
+def fracStr (f : Nat) : Str :=
+  if f = 0 then []
+  else if f % 1000 ≠ 0 then '.' :: zpad f 9
+  else if f / 1000 % 1000 ≠ 0 then '.' :: zpad (f / 1000) 6
+  else '.' :: zpad (f / 1000000) 3
+
+theorem parseFrac_fracStr (e : Env) {v : Str} {i f : Nat} {r : Str} (hf : f ≤ 999999999)
+    (hr : OffHead r) (h : Sfx v i (fracStr f ++ r)) :
+    parseFractionalSecond e ⟨v, i⟩ = some ((f : Int), ⟨v, i + (fracStr f).length⟩) := by
+  by_cases h0 : f = 0
+  · have hfs : fracStr f = [] := by simp [fracStr, h0]
+    rw [hfs] at h ⊢
+    subst h0; simpa using parseFrac_none e hr h
+  by_cases h1 : f % 1000 = 0
+  by_cases h2 : f / 1000 % 1000 = 0
+  · have hfs : fracStr f = '.' :: zpad (f / 1000000) 3 := by simp [fracStr, h0, h1, h2]
+    rw [hfs] at h ⊢
+    have hl : (zpad (f / 1000000) 3).length = 3 := zpad_length _ 3 (by decide) (by
+      have : (10:Nat)^3 = 1000 := by decide
+      omega)
+    have := parseFrac_some e (zpad_AllD _ 3) (zpad_ne_nil _ 3) (by omega) hr h
+    rw [this, dval_zpad, hl]
+    simp [hl]; omega
+  · have hfs : fracStr f = '.' :: zpad (f / 1000) 6 := by simp [fracStr, h0, h1, h2]
+    rw [hfs] at h ⊢
+    have hl : (zpad (f / 1000) 6).length = 6 := zpad_length _ 6 (by decide) (by
+      have : (10:Nat)^6 = 1000000 := by decide
+      omega)
+    have := parseFrac_some e (zpad_AllD _ 6) (zpad_ne_nil _ 6) (by omega) hr h
+    rw [this, dval_zpad, hl]
+    simp [hl]; omega
+  · have hfs : fracStr f = '.' :: zpad f 9 := by simp [fracStr, h0, h1]
+    rw [hfs] at h ⊢
+    have hl : (zpad f 9).length = 9 := zpad_length f 9 (by decide) (by
+      have : (10:Nat)^9 = 1000000000 := by decide
+      omega)
+    have := parseFrac_some e (zpad_AllD f 9) (zpad_ne_nil f 9) (by omega) hr h
+    rw [this, dval_zpad, hl]
+    simp [hl]
+
 end Proofs.DatesFormatParse
